@@ -147,8 +147,15 @@ func (rc *refClient) addResources(rs *rpcResources) {
 type monitors struct {
 	w        *world
 	mqSubs   map[string]bool
-	tokens   map[string]string // cid -> token JSON ("" = nil)
-	gone     map[string]bool   // disconnected cids
+	tokens   map[string]string          // cid -> token JSON ("" = nil)
+	tids     map[string]string          // cid -> token id of the last token event
+	resetFor map[string]map[string]bool // tokenReset subject -> token ids named by the resets so far
+	// C06: (cid + " " + rid as the client spells it) -> id of the last service request issued before
+	// the trigger; the re-check is over when an access answer to a later request arrives
+	recheck  map[string]recheckState
+	curEvent string          // resource name of the event published in this step ("" otherwise)
+	pubStep  map[string]int  // resource name + "#" + sequence number of a custom event -> step of its publication
+	gone     map[string]bool // disconnected cids
 	reqOwner map[int]string
 	// C04-C06 bookkeeping: latest access verdict per (cid, resource name?query)
 	grants  map[string]*grantState
@@ -165,6 +172,11 @@ type grantState struct {
 	// for one resource can be outstanding and be answered differently; either answer is a grant
 	// the gateway may hold.
 	alts []grantAlt
+}
+
+type recheckState struct {
+	since int // id of the last service request issued before the trigger
+	step  int // step of the trigger
 }
 
 type grantAlt struct {
@@ -203,7 +215,7 @@ type queryEvState struct {
 }
 
 func newMonitors(w *world) *monitors {
-	return &monitors{w: w, mqSubs: map[string]bool{}, tokens: map[string]string{}, gone: map[string]bool{},
+	return &monitors{w: w, mqSubs: map[string]bool{}, tokens: map[string]string{}, tids: map[string]string{}, recheck: map[string]recheckState{}, pubStep: map[string]int{}, resetFor: map[string]map[string]bool{}, gone: map[string]bool{},
 		reqOwner: map[int]string{}, grants: map[string]*grantState{}, queryEv: map[string]*queryEvState{}}
 }
 
@@ -330,9 +342,22 @@ func (m *monitors) onFrame(c *wsClient, f *cframe) {
 		case "unsubscribe":
 			rc.direct[p.rid] -= p.count
 			if rc.direct[p.rid] < 0 {
-				w.addViolation("C08", "unsubscribe-beyond-count", fmt.Sprintf("unsubscribe(%d) of %s succeeded on %s although the client holds fewer successful subscriptions", p.count, p.rid, c.name))
+				// D2 (known): the gateway counts direct subscriptions of requests that are still
+				// pending. Without such a request the success has no excuse.
+				pendingDirect := false
+				for _, q := range rc.pending {
+					// (a pending call/auth/new may be answered with a resource response naming any rid)
+					if (q.rid == p.rid && (q.kind == "subscribe" || q.kind == "get")) || q.kind == "new" || q.kind == "call" || q.kind == "auth" {
+						pendingDirect = true
+					}
+				}
+				key := "unsubscribe-beyond-count"
+				if !pendingDirect {
+					key = "unsubscribe-beyond-count:nothing-pending"
+				}
+				w.addViolation("C08", key, fmt.Sprintf("unsubscribe(%d) of %s succeeded on %s although the client holds fewer successful subscriptions", p.count, p.rid, c.name))
 				rc.direct[p.rid] = 0
-				if w.taint == "" {
+				if w.taint == "" && pendingDirect {
 					w.taint = "D2"
 				}
 			}
@@ -368,8 +393,22 @@ func (m *monitors) onFrame(c *wsClient, f *cframe) {
 			w.addViolation("C08", "unsubscribe-event-without-subscription", "unsubscribe event for "+f.rid+" on "+c.name+" which has no direct subscription")
 		}
 		rc.direct[f.rid] = 0
+		delete(m.recheck, c.cid+" "+f.rid)
 		rc.gc()
 		return
+	}
+	// C06: an event published after a trigger is not delivered before the new verdict is known
+	if st, pending := m.recheck[c.cid+" "+f.rid]; pending && rc.direct[f.rid] > 0 {
+		name, _ := w.realName(c, f.rid)
+		after := m.curEvent == name // published in this very step, i.e. after the trigger
+		if mm := reSeq.FindSubmatch(f.data); mm != nil {
+			if ps, ok := m.pubStep[name+"#"+string(mm[1])]; ok && ps > st.step {
+				after = true
+			}
+		}
+		if after {
+			w.addViolation("C06", "event-before-new-verdict", fmt.Sprintf("%s event for %s delivered to %s although it reached the gateway after a trigger whose access re-check is not answered yet", f.event, f.rid, c.name))
+		}
 	}
 	if (r == nil || !rc.reachable()[f.rid]) && rc.lastGet[f.rid] {
 		// events queued while a get was loading are flushed to the client right after the get
@@ -474,13 +513,42 @@ func (m *monitors) onDisconnect(c *wsClient) {
 	}
 }
 
+// markRecheck: a trigger reached the gateway for the resources selected by sel.
+func (m *monitors) markRecheck(sel func(c *wsClient, name string) bool) {
+	last := m.w.mq.lastID()
+	for _, c := range m.w.clients {
+		if c.ref == nil || m.gone[c.cid] {
+			continue
+		}
+		for rid, n := range c.ref.direct {
+			if n <= 0 {
+				continue
+			}
+			name, _ := m.w.realName(c, rid)
+			if sel(c, name) {
+				m.recheck[c.cid+" "+rid] = recheckState{since: last, step: len(m.w.steps)}
+			}
+		}
+	}
+}
+
 func (m *monitors) onPublish(subject, payload string) {
+	if strings.HasPrefix(subject, "event.") && !strings.HasSuffix(subject, ".reaccess") {
+		if i := strings.LastIndexByte(subject, '.'); i > 6 {
+			m.curEvent = subject[6:i]
+			if mm := reSeq.FindSubmatch([]byte(payload)); mm != nil {
+				m.pubStep[m.curEvent+"#"+string(mm[1])] = len(m.w.steps)
+			}
+		}
+	}
 	if strings.HasPrefix(subject, "conn.") && strings.HasSuffix(subject, ".token") {
 		cid := subject[5 : len(subject)-6]
 		var te struct {
 			Token json.RawMessage `json:"token"`
+			TID   string          `json:"tid"`
 		}
 		json.Unmarshal([]byte(payload), &te)
+		m.tids[cid] = te.TID
 		tok := string(te.Token)
 		if tok == "null" {
 			tok = ""
@@ -488,6 +556,7 @@ func (m *monitors) onPublish(subject, payload string) {
 		had := m.tokens[cid] != ""
 		m.tokens[cid] = tok
 		if had {
+			m.markRecheck(func(c *wsClient, _ string) bool { return c.cid == cid })
 			// every grant of that connection becomes invalid
 			for k, g := range m.grants {
 				if strings.HasPrefix(k, cid+" ") {
@@ -498,6 +567,7 @@ func (m *monitors) onPublish(subject, payload string) {
 	}
 	if strings.HasPrefix(subject, "event.") && strings.HasSuffix(subject, ".reaccess") {
 		name := subject[6 : len(subject)-9]
+		m.markRecheck(func(_ *wsClient, n string) bool { return n == name })
 		for k, g := range m.grants {
 			parts := strings.SplitN(k, " ", 2)
 			rn := parts[1]
@@ -509,11 +579,31 @@ func (m *monitors) onPublish(subject, payload string) {
 			}
 		}
 	}
+	if subject == "system.tokenReset" {
+		var tr struct {
+			TIDs    []string `json:"tids"`
+			Subject string   `json:"subject"`
+		}
+		if json.Unmarshal([]byte(payload), &tr) == nil && tr.Subject != "" {
+			m.resetFor[tr.Subject] = map[string]bool{}
+			for _, t := range tr.TIDs {
+				m.resetFor[tr.Subject][t] = true
+			}
+		}
+	}
 	if subject == "system.reset" {
 		var sr struct {
 			Access []string `json:"access"`
 		}
 		json.Unmarshal([]byte(payload), &sr)
+		m.markRecheck(func(_ *wsClient, n string) bool {
+			for _, p := range sr.Access {
+				if specPatternValid(p) && specPatternMatch(p, n) {
+					return true
+				}
+			}
+			return false
+		})
 		for k, g := range m.grants {
 			parts := strings.SplitN(k, " ", 2)
 			rn := parts[1]
@@ -581,8 +671,21 @@ func (m *monitors) onRequest(l mqLog) {
 		}
 		if tok != m.tokens[*p.CID] {
 			w.addViolation("C10", "wrong-token", fmt.Sprintf("request %s for %s carries token %q, the connection's token is %q", w.absSubject(l.subject), w.cname(*p.CID), tok, m.tokens[*p.CID]))
+			if kind == "access" {
+				// C04/C06: the verdict must be asked with the connection's then-current token
+				w.addViolation("C04", "access-request-with-stale-token", fmt.Sprintf("%s for %s asked with token %q, the connection's token is %q", w.absSubject(l.subject), w.cname(*p.CID), tok, m.tokens[*p.CID]))
+				w.addViolation("C06", "access-request-with-stale-token", fmt.Sprintf("%s for %s asked with token %q, the connection's token is %q", w.absSubject(l.subject), w.cname(*p.CID), tok, m.tokens[*p.CID]))
+			} else {
+				w.addViolation("C05", "request-with-stale-token", fmt.Sprintf("%s for %s sent with token %q, the connection's token is %q", w.absSubject(l.subject), w.cname(*p.CID), tok, m.tokens[*p.CID]))
+			}
 		}
 		m.reqOwner[l.id] = *p.CID
+		if named, ok := m.resetFor[l.subject]; ok && kind == "auth" {
+			// C10: a token reset addresses only the connections whose current token id it names
+			if tid := m.tids[*p.CID]; tid == "" || !named[tid] {
+				w.addViolation("C10", "token-reset-for-unaddressed-connection", fmt.Sprintf("token reset request %s sent for %s whose token id is %q", l.subject, w.cname(*p.CID), tid))
+			}
+		}
 		if kind == "call" {
 			// C05: forwarded only under a valid grant for that method
 			rest := l.subject[5:]
@@ -617,6 +720,17 @@ func (m *monitors) onAnswer(r *mockReq, label string, data []byte, err error) {
 		key := p.CID + " " + r.subject[7:]
 		if p.Query != "" {
 			key += "?" + p.Query
+		}
+		for k, st := range m.recheck {
+			if strings.HasPrefix(k, p.CID+" ") && r.id > st.since {
+				for _, c := range m.w.clients {
+					if c.cid == p.CID {
+						if name, _ := m.w.realName(c, k[len(p.CID)+1:]); name == r.subject[7:] {
+							delete(m.recheck, k)
+						}
+					}
+				}
+			}
 		}
 		g := &grantState{known: true, valid: true}
 		if err == nil {
@@ -659,7 +773,7 @@ func (m *monitors) checkDataGrant(c *wsClient, rid string, rs *rpcResources, f *
 	}
 }
 
-func (m *monitors) afterStep() {}
+func (m *monitors) afterStep() { m.curEvent = "" }
 
 // ---- end-of-history checks ----
 
